@@ -24,6 +24,7 @@ static uint64_t get(const char* name, unsigned bits, bool ranged, long lo, long 
         if (rec) fprintf(rec, "%s %llu\n", n.c_str(), (unsigned long long)v);
     } else {
         auto it = inputs.find(n);
+        if (it == inputs.end()) it = inputs.find(name);   // developer convenience: value given by bare name
         v = it == inputs.end() ? (ranged ? (uint64_t)lo : 0) : it->second;
         if (ranged) { long sv = (long)(int32_t)v; if (sv < lo || sv > hi) v = (uint64_t)lo; }
     }
